@@ -155,6 +155,8 @@ type Admissible struct {
 	sets   [][]map[string]Outcome
 	orders int
 	alone  [][]Outcome
+	// SeqDeadlock: some purely sequential execution of the workload blocked forever
+	SeqDeadlock bool
 }
 
 func (a *Admissible) add(t, i int, o Outcome) {
@@ -167,20 +169,32 @@ func (a *Admissible) has(t, i int, o Outcome) bool {
 }
 
 // runSequential executes the workload with the given global order of
-// (task, op) steps on one shared environment, on the calling goroutine.
-func runSequential(w *Workload, prep [][]*Prepared, warm []*Prepared, order [][2]int) [][]Outcome {
-	env := newEnv(w.Codec)
-	for _, p := range warm {
-		execOp(env, p)
-	}
+// (task, op) steps on one shared environment. It runs as a single simulated
+// task, so that a lock that is never released shows up as a detected
+// deadlock instead of hanging the harness.
+func runSequential(w *Workload, prep [][]*Prepared, warm []*Prepared, order [][2]int) ([][]Outcome, bool) {
 	out := make([][]Outcome, len(w.Tasks))
 	for t := range w.Tasks {
 		out[t] = make([]Outcome, len(w.Tasks[t]))
 	}
-	for _, st := range order {
-		out[st[0]][st[1]] = execOp(env, prep[st[0]][st[1]])
+	sim := simrt.NewSim(1, simrt.Policy{Mode: "serial"})
+	simrt.SetPermHook(nil)
+	sim.Spawn("seq", func() {
+		env := newEnv(w.Codec)
+		for _, p := range warm {
+			execOp(env, p)
+		}
+		for _, st := range order {
+			out[st[0]][st[1]] = execOp(env, prep[st[0]][st[1]])
+		}
+	})
+	sim.Run(20 * time.Second)
+	dead := sim.Deadlock || sim.Capped
+	sim.Close()
+	if dead {
+		return nil, true
 	}
-	return out
+	return out, false
 }
 
 func taskMajor(w *Workload, perm []int) [][2]int {
@@ -237,7 +251,7 @@ func computeAdmissible(w *Workload, prep [][]*Prepared, warm []*Prepared, seed u
 		a.alone[t] = make([]Outcome, len(w.Tasks[t]))
 		for i := range w.Tasks[t] {
 			a.sets[t][i] = map[string]Outcome{}
-			// (i) alone, on a fresh private instance
+			// (i) alone, on a fresh private instance (cannot block: nothing was used before)
 			env := newEnv(w.Codec)
 			o := execOp(env, prep[t][i])
 			a.alone[t][i] = o
@@ -245,7 +259,14 @@ func computeAdmissible(w *Workload, prep [][]*Prepared, warm []*Prepared, seed u
 		}
 	}
 	addRun := func(order [][2]int) {
-		out := runSequential(w, prep, warm, order)
+		if a.SeqDeadlock {
+			return
+		}
+		out, dead := runSequential(w, prep, warm, order)
+		if dead {
+			a.SeqDeadlock = true
+			return
+		}
 		for t := range out {
 			for i := range out[t] {
 				a.add(t, i, out[t][i])
@@ -274,7 +295,10 @@ func computeAdmissible(w *Workload, prep [][]*Prepared, warm []*Prepared, seed u
 func confirmNotSequential(w *Workload, prep [][]*Prepared, warm []*Prepared, a *Admissible, t, i int, o Outcome, seed uint64) bool {
 	rng := simrt.NewRng(simrt.Derive(seed, 0xc0f))
 	for k := 0; k < 300; k++ {
-		out := runSequential(w, prep, warm, randomMerge(w, rng))
+		out, dead := runSequential(w, prep, warm, randomMerge(w, rng))
+		if dead {
+			return true
+		}
 		for tt := range out {
 			for ii := range out[tt] {
 				a.add(tt, ii, out[tt][ii])
@@ -314,31 +338,42 @@ func (v *Violation) Key() string {
 	return v.Class
 }
 
-func judge(w *Workload, prep [][]*Prepared, warm []*Prepared, a *Admissible, res *RunResult, seed uint64, refYields int) *Violation {
+// judge returns every violation of a run: first the schedule-level ones
+// (deadlock, no progress, wrong result, panic), then the race report.
+func judge(w *Workload, prep [][]*Prepared, warm []*Prepared, a *Admissible, res *RunResult, seed uint64, refYields int) []*Violation {
+	var out []*Violation
+	var race *Violation
 	if res.Race != "" {
 		funcs, inRepo := raceFrames(res.Race)
-		v := &Violation{Class: "data_race", Task: -1, Op: -1, Detail: truncate(res.Race, 6000), Funcs: funcs}
+		race = &Violation{Class: "data_race", Task: -1, Op: -1, Detail: truncate(res.Race, 6000), Funcs: funcs}
 		if !inRepo {
-			v.Class = "harness_race"
+			race.Class = "harness_race"
 		}
-		return v
 	}
 	if res.Deadlock {
-		return &Violation{Class: "deadlock", Task: -1, Op: -1, Detail: "every live task is blocked on a lock or Once that nobody can release; last site " + res.StuckSite}
+		out = append(out, &Violation{Class: "deadlock", Task: -1, Op: -1, Detail: "every live task is blocked on a lock or Once that nobody can release; last site " + res.StuckSite})
+		if race != nil {
+			out = append(out, race)
+		}
+		return out
 	}
 	if res.Capped {
-		return &Violation{Class: "yield_cap", Task: -1, Op: -1, Detail: "run exceeded the yield cap at " + res.StuckSite}
+		out = append(out, &Violation{Class: "yield_cap", Task: -1, Op: -1, Detail: "run exceeded the yield cap at " + res.StuckSite})
+		return out
 	}
 	if refYields > 0 && res.Stats.MaxOpYields > 100*refYields+5000 {
-		return &Violation{Class: "no_progress", Task: -1, Op: -1, Detail: fmt.Sprintf("an operation executed %d yields; the whole workload takes %d when run sequentially", res.Stats.MaxOpYields, refYields)}
+		out = append(out, &Violation{Class: "no_progress", Task: -1, Op: -1, Detail: fmt.Sprintf("an operation executed %d yields; the whole workload takes %d when run sequentially", res.Stats.MaxOpYields, refYields)})
 	}
+	found := false
 	for t := range res.Outcomes {
 		for i, o := range res.Outcomes[t] {
-			if a.has(t, i, o) {
+			if found || a.has(t, i, o) {
 				continue
 			}
 			if o.Class == "not_run" {
-				return &Violation{Class: "harness_trouble", Task: t, Op: i, Detail: "operation did not run"}
+				out = append(out, &Violation{Class: "harness_trouble", Task: t, Op: i, Detail: "operation did not run"})
+				found = true
+				continue
 			}
 			if !confirmNotSequential(w, prep, warm, a, t, i, o, seed) {
 				continue
@@ -352,12 +387,16 @@ func judge(w *Workload, prep [][]*Prepared, warm []*Prepared, a *Admissible, res
 			if o.Class == "panic" {
 				cls = "panic"
 			}
-			return &Violation{Class: cls, Task: t, Op: i, OpSpec: w.Tasks[t][i].String(),
+			out = append(out, &Violation{Class: cls, Task: t, Op: i, OpSpec: w.Tasks[t][i].String(),
 				Detail: fmt.Sprintf("under simulation the call returned %s:%s %s\nin every sequential execution (%d orders) it returns one of: %s",
-					o.Class, o.Canon, truncate(o.Text, 1200), a.orders, strings.Join(adm, " | "))}
+					o.Class, o.Canon, truncate(o.Text, 1200), a.orders, strings.Join(adm, " | "))})
+			found = true
 		}
 	}
-	return nil
+	if race != nil {
+		out = append(out, race)
+	}
+	return out
 }
 
 func firstLine(s string) string {
